@@ -56,7 +56,9 @@ GlobalFillers == {"2", "-1", "1.5", "0", "7", "true", "\"s\"", "S1", "B1", "A1",
                   \* set functions over two equal arguments that are no collections
                   "difference(3, 3)", "union(\"a\", \"a\")", "intersection(G, G)", "union(B1, B1)",
                   \* a matrix whose rows differ in element kind: its static kind must not be that of its first row
-                  "X3", "X3[1]", "X3[1][0]", "X3[0][1]"}
+                  "X3", "X3[1]", "X3[1][0]", "X3[0][1]",
+                  \* an iterable function applied to the result of another one: the elements are tuples inside tuples
+                  "zip(enumerate(A1), A1)", "zip(A1, enumerate(A1))", "enumerate(zip(A1, A1))", "zip(zip(A1, A1), A1)", "enumerate(enumerate(A1))"}
 RowFillers == GlobalFillers \cup {"u", "e", "t", "i"}
 FillersFor(t) == IF t.where = "row" THEN RowFillers ELSE GlobalFillers
 
